@@ -102,8 +102,9 @@ class LoggingModel:
 # --------------------------------------------------------------------------
 # one optimiser call
 # --------------------------------------------------------------------------
-def execute_run(cfg, rid):
-    """cfg is the record's 'in' (everything needed to repeat the call)."""
+def execute_run(cfg, rid, objs=None):
+    """cfg is the record's 'in' (everything needed to repeat the call).  objs (call sequences): the caller's own
+    p0 / lower_bound / upper_bound / fixed_params objects, handed to dadi as they are (their contents equal cfg's)."""
     import dadi
     from dadi import Inference
     import scipy.optimize  # noqa: F401
@@ -117,6 +118,11 @@ def execute_run(cfg, rid):
     ub = [num(v) for v in cfg['ub']]
     wrap = CONTAINERS[cfg.get('container', 'list')]
     fixed_arg = None if cfg['fixed_is_none'] else wrap(fixed, True)
+    if objs is not None:
+        for key, want in (('p0', [num(v) for v in cfg['p0']]), ('lb', lb), ('ub', ub), ('fixed', fixed)):
+            if [None if v is None else float(v) for v in objs[key]] != want:
+                raise common.MachineryError('C12 sequence %s: the re-used %s object does not hold the recorded values' % (rid, key))
+        fixed_arg = objs['fixed']
     kw = dict(multinom=cfg['multinom'], fixed_params=fixed_arg)
     full = cfg['full_output']
     scale = num(cfg['ll_scale'])
@@ -132,6 +138,8 @@ def execute_run(cfg, rid):
         kw['lower_bound'] = None if cfg['lb_is_none'] else wrap(lb)
         kw['upper_bound'] = None if cfg['ub_is_none'] else wrap(ub)
         p0 = wrap(p0)
+        if objs is not None:
+            p0, kw['lower_bound'], kw['upper_bound'] = objs['p0'], objs['lb'], objs['ub']
     else:
         cfg['f0'] = NONE
     model.mode = 'eval'
@@ -164,7 +172,8 @@ def execute_run(cfg, rid):
         model.events.append({'ev': 'Probe', 'x': rats(x), 'll': rat(model.last)})
     except Exception as e:          # recorded; the specification has no action for it
         model.events.append({'ev': 'Raised', 'type': type(e).__name__, 'msg': str(e)[:120]})
-    return {'id': rid, 'op': 'run', 'site': site_of(kind, log, on_bound), 'in': cfg, 'out': {'events': model.events}}
+    return {'id': rid, 'op': 'run', 'site': site_of(kind, log, on_bound) + (SEQ_SUFFIX if objs is not None else ''), 'in': cfg,
+            'out': {'events': model.events}}
 
 
 def _ints(v, mask=False):
@@ -400,6 +409,114 @@ def run_records(ctx):
 
 
 # --------------------------------------------------------------------------
+# sequences of optimiser calls in one process that re-use the SAME argument objects, edited in place between calls
+# --------------------------------------------------------------------------
+SEQ_SUFFIX = '[re-used argument lists]'
+SEQ_BUDGET = {'opt': 25, 'optimize': 2, 'optimize_log': 2, 'optimize_lbfgsb': 12, 'optimize_log_lbfgsb': 12,
+              'optimize_log_fmin': 10, 'optimize_log_powell': 1, 'optimize_cons': 3}
+
+
+def seq_script(rng, with_none=True):
+    """The user's session: (step name, in-place edits [(object, index, value)], the optimum of this step's data).
+    Start points and fixed values stay strictly inside the bounds passed at each call; after an edit the optimum
+    lies beyond the edited bound, so an optimiser that still works with the earlier contents leaves the bounds."""
+    def j(x):                       # the seed moves every number a little
+        return round(x * (1 + 0.04 * rng.uniform(-1, 1)), 6)
+    first = {'p0': [j(1.0), j(2.5), j(1.5)], 'lb': [j(0.25), j(0.5), j(0.2)], 'ub': [j(3.0), j(4.0), j(3.5)], 'fixed': [None, None, None]}
+    steps = [('first', [], [j(2.4), j(3.2), j(1.0)]),
+             ('tighten_upper', [('ub', 0, j(1.25))], [j(2.4), j(3.2), j(1.0)]),
+             ('raise_lower', [('lb', 1, j(2.0))], [j(2.4), j(1.0), j(1.0)])]
+    if with_none:
+        steps += [('bounds_to_none', [('ub', 0, None), ('ub', 2, None), ('lb', 2, None)], [j(2.0), j(1.2), j(1.0)]),
+                  ('none_to_upper', [('ub', 0, j(1.4)), ('ub', 2, j(2.0))], [j(2.6), j(1.0), j(3.0)]),
+                  ('none_to_lower', [('lb', 2, j(1.2))], [j(2.6), j(1.0), j(0.5)])]
+    else:
+        steps += [('tighten_both', [('ub', 2, j(2.0)), ('lb', 2, j(1.2))], [j(2.6), j(1.0), j(3.0)])]
+    steps += [('edit_start', [('p0', 0, j(0.6)), ('p0', 1, j(3.0))], [j(2.6), j(1.0), j(0.5)]),
+              ('fix_one', [('fixed', 1, j(2.2))], [j(2.6), j(1.0), j(0.5)]),
+              ('move_fixed', [('fixed', 1, None), ('fixed', 0, j(0.9))], [j(2.6), j(1.0), j(2.5)]),
+              ('loosen', [('ub', 0, j(3.0)), ('lb', 1, j(0.5)), ('fixed', 0, None)], [j(2.0), j(1.0), j(1.6)])]
+    return first, steps
+
+
+def seq_cfgs(rng, kinds, name, with_none=True, container='list'):
+    """The recorded calls of one session: kinds[k % len(kinds)] = (kind, log) makes call k."""
+    first, steps = seq_script(rng, with_none)
+    cur = {k: list(v) for k, v in first.items()}
+    cfgs = []
+    for k, (step, edits, truth) in enumerate(steps):
+        for obj, idx, val in edits:
+            cur[obj][idx] = val
+        kind, log = kinds[k % len(kinds)]
+        cfgs.append({'kind': kind, 'log': log, 'npar': 3, 'mseed': rng.randrange(10 ** 6), 'truth': rats(truth),
+                     'multinom': rng.random() < 0.5, 'fixed': [enc(v) for v in cur['fixed']], 'fixed_is_none': False,
+                     'full_output': kind != 'opt' and k % 2 == 0, 'll_scale': '1', 'budget': SEQ_BUDGET[kind],
+                     'p0': rats(cur['p0']), 'lb': [enc(v) for v in cur['lb']], 'ub': [enc(v) for v in cur['ub']],
+                     'lb_is_none': False, 'ub_is_none': False, 'container': container,
+                     'seq': {'name': name, 'step': step, 'k': k, 'edits': [[o, i, enc(v)] for o, i, v in edits]}})
+    return cfgs
+
+
+def execute_sequence(cfgs, ids):
+    """Make the calls one after the other in this process.  The four argument objects are created once; before each call
+    the entries that differ from the call's recorded values are assigned IN PLACE (object[i] = value)."""
+    def values(c, key):
+        return [num(v) for v in c[key]]
+    keys = ('p0', 'lb', 'ub', 'fixed')
+    as_array = cfgs[0].get('container') == 'array'
+    objs = {}
+    for key in keys:
+        v = values(cfgs[0], key)
+        objs[key] = np.array(v, dtype=float) if as_array and key != 'fixed' and None not in v else list(v)
+    recs = []
+    for c, rid in zip(cfgs, ids):
+        for key in keys:
+            want = values(c, key)
+            for i in range(len(want)):
+                have = objs[key][i]
+                if (None if have is None else float(have)) != want[i]:
+                    objs[key][i] = want[i]
+        recs.append(execute_run(c, rid, objs=objs))
+    return recs
+
+
+def sequence_records(ctx):
+    rng = random.Random(ctx.seed + 1200)
+    variants = [(k, k in ALWAYS_LOG) for k in KINDS if k != 'optimize_grid'] + [('opt', True)]
+    sessions = []
+    for rep in range(1 if ctx.quick else 5):
+        for kind, log in variants:              # one optimiser through the whole session
+            sessions.append(seq_cfgs(rng, [(kind, log)], '%s%s-%d' % (kind, '-log' if log and kind == 'opt' else '', rep)))
+        # numpy arrays as bound / start objects, edited in place (no None entries)
+        for kind, log in variants[rep % 2::2]:
+            sessions.append(seq_cfgs(rng, [(kind, log)], '%s%s-arrays-%d' % (kind, '-log' if log and kind == 'opt' else '', rep),
+                                     with_none=False, container='array'))
+        # the same objects handed from one optimiser to the next
+        for shift in (0, 3):
+            order = variants[shift:] + variants[:shift]
+            rng.shuffle(order)
+            sessions.append(seq_cfgs(rng, order, 'mixed-%d-%d' % (shift, rep)))
+    recs = []
+    for cfgs in sessions:
+        ids = ['seq-%s-%d-%s' % (c['seq']['name'], c['seq']['k'], c['seq']['step']) for c in cfgs]
+        got = execute_sequence(cfgs, ids)
+        for k, r in enumerate(got):
+            # what a replay needs: the calls made before this one on the same objects
+            r['in']['seq']['prior'] = [{a: b for a, b in c.items() if a != 'seq'} for c in cfgs[:k]]
+        recs.extend(got)
+    return recs
+
+
+def replay_sequence(old):
+    """Re-execute the session up to and including the recorded call; return the fresh record of that call."""
+    this = {a: b for a, b in old['in'].items() if a != 'f0'}
+    prior = [dict(c, seq={'name': this['seq']['name'], 'step': 'prior', 'k': k, 'edits': []}) for k, c in enumerate(this['seq']['prior'])]
+    prior = [{a: b for a, b in c.items() if a != 'f0'} for c in prior]
+    got = execute_sequence(prior + [this], ['prior-%d' % k for k in range(len(prior))] + [old['id']])
+    return got[-1]
+
+
+# --------------------------------------------------------------------------
 # single calls: _project_params_up / _project_params_down / perturb_params
 # --------------------------------------------------------------------------
 def rand_mask(rng, n, p=0.4):
@@ -552,7 +669,7 @@ def nontrivial(r):
         if len(pts) < 3 or ev[-1]['ev'] != 'Probe':
             return None
         return ('run', r['site'], i['npar'], tuple(v != NONE for v in i['fixed']), i['multinom'], i['full_output'],
-                tuple((a != NONE, b != NONE) for a, b in zip(i['lb'], i['ub'])))
+                tuple((a != NONE, b != NONE) for a, b in zip(i['lb'], i['ub'])), i['seq']['step'] if 'seq' in i else None)
     if r['op'] == 'perturb':
         if all(v == NONE for v in i['lb'] + i['ub']):
             return None
@@ -642,7 +759,10 @@ def run(ctx):
     if ctx.replay:
         old = ctx.replay_payload['payload']['record']
         ctx.no_mc = True
-        recs = [execute_run(old['in'], old['id']) if old['op'] == 'run' else execute_static(old['op'], old['in'], old['id'])]
+        if old['op'] == 'run' and 'seq' in old['in']:
+            recs = [replay_sequence(old)]
+        else:
+            recs = [execute_run(old['in'], old['id']) if old['op'] == 'run' else execute_static(old['op'], old['in'], old['id'])]
     else:
         recs = None
     extra = {'tolerances': {'Tau (log-likelihood, relative)': '1e-9', 'TauX (parameter values after a coordinate map, relative)': '1e-12'}}
@@ -655,7 +775,7 @@ def run(ctx):
         pool = ThreadPoolExecutor(max_workers=1 + len(mcs))
         pending = (pool.submit(nonvacuity), [pool.submit(common.run_mc, spec, cfg) for spec, cfg in mcs])
     if recs is None:
-        recs = run_records(ctx) + static_records(ctx)
+        recs = run_records(ctx) + sequence_records(ctx) + static_records(ctx)
     res = _pipeline(ctx, recs, extra)
     if pending:
         cov = res['coverage']
@@ -690,6 +810,10 @@ def _pipeline1(ctx, recs, extra):
              'bounds as None argument and as list of None, bounds exactly 0, start value 0, equal bounds, negative box, fixed value 0.0 and int 0 in '
              'first / middle / last / two positions, tuples / arrays / Python ints as containers, full_output on and off x multinom on and off, ll_scale; '
              'optimize_grid: ranges from / to / across 0, both range spellings, single-point range, 1-3 free parameters, fixed 0.0 / int 0; '
+             'call sequences in one process on the SAME p0 / lower_bound / upper_bound / fixed_params objects (lists; numpy arrays), edited in place between the calls: '
+             'tighten an upper bound, raise a lower bound, bounds to None, None to an upper / a lower bound, edit the start point, fix a parameter, move the fixed '
+             'parameter, loosen - one session per optimiser and two sessions in which the objects pass from one optimiser to the next; every call is judged '
+             'against the values the objects held at that call (after each edit the optimum lies beyond the edited bound); '
              'up/down: every mask pattern over 0-3 entries with fixed 0.0 / int 0 / negative, free value 0, scalar argument; '
              'perturb: every pairing of {no argument, None entry, negative, 0, positive} bounds, equal bounds, parameters -1/0/1, folds 0/1/3, containers.',
         assumptions=['at least one parameter is free (with every parameter fixed there is nothing to optimise; nlopt refuses dimension 0)',
